@@ -17,6 +17,11 @@ type Clause struct {
 	Line int
 }
 
+type LetClause struct {
+	Name string
+	Clause
+}
+
 type LoopSpec struct {
 	Ordinal    int
 	IdxName    string
@@ -32,6 +37,9 @@ type Contract struct {
 	ResultNames []string
 	Requires    []Clause
 	Ensures     []Clause
+	Lets        []LetClause
+	Instantiate []Clause // ghost calls of pure contracted functions: "instantiate From(c[0])"
+	Defines     []Clause // definitional naming of a deterministic result by a spec function: assumed at call sites, never checked
 	PanicsWhen  []Clause
 	Loops       map[int]*LoopSpec
 	Assigns     []string // location expressions; empty + AssignsSet => nothing
@@ -159,7 +167,7 @@ func ParseContractFile(path, pkgPath string) ([]*Contract, error) {
 			}
 			out = append(out, c)
 			cur = c
-		case "requires", "ensures", "panics-when", "invariant", "decreases":
+		case "requires", "ensures", "defines", "panics-when", "invariant", "decreases":
 			if cur == nil {
 				return nil, fmt.Errorf("%s:%d: clause outside contract", path, ln)
 			}
@@ -172,6 +180,8 @@ func ParseContractFile(path, pkgPath string) ([]*Contract, error) {
 				cur.Requires = append(cur.Requires, cl)
 			case "ensures":
 				cur.Ensures = append(cur.Ensures, cl)
+			case "defines":
+				cur.Defines = append(cur.Defines, cl)
 			case "panics-when":
 				cur.PanicsWhen = append(cur.PanicsWhen, cl)
 			case "invariant":
@@ -185,6 +195,24 @@ func ParseContractFile(path, pkgPath string) ([]*Contract, error) {
 				}
 				curLoop.Decreases = &cl
 			}
+		case "let":
+			i := strings.Index(rest, "=")
+			if i < 0 || cur == nil {
+				return nil, fmt.Errorf("%s:%d: bad let", path, ln)
+			}
+			name := strings.TrimSpace(rest[:i])
+			rest = strings.TrimSpace(rest[i+1:])
+			cl, err := mk()
+			if err != nil {
+				return nil, err
+			}
+			cur.Lets = append(cur.Lets, LetClause{Name: name, Clause: cl})
+		case "instantiate":
+			cl, err := mk()
+			if err != nil {
+				return nil, err
+			}
+			cur.Instantiate = append(cur.Instantiate, cl)
 		case "loop":
 			m := regexp.MustCompile(`^(\d+)\s*(?:\((\w+)\))?\s*:?\s*$`).FindStringSubmatch(rest)
 			if m == nil || cur == nil {
@@ -263,6 +291,8 @@ func LoadContracts(repoDir, extDir string, pkgPathOf func(dir string) string) (m
 		}
 	}
 	exts, _ := filepath.Glob(filepath.Join(extDir, "*.spec"))
+	lem, _ := filepath.Glob(filepath.Join(filepath.Dir(extDir), "lemmas", "*.spec"))
+	exts = append(exts, lem...)
 	sort.Strings(exts)
 	for _, f := range exts {
 		cs, err := ParseContractFile(f, "")
